@@ -1477,6 +1477,60 @@ class Models:
     def m_int__pow(self, c, a, n):
         return a ** n
 
+    def _int_ty(self, c):
+        m = re.search(r'<impl (\w+)>', c)
+        if m and m.group(1) in INT_TYS:
+            return m.group(1)
+        h = c.split('::')[0]
+        return h if h in INT_TYS else 'u64'
+
+    def _int_range(self, c):
+        signed, bits = INT_TYS[self._int_ty(c)]
+        return (-(1 << (bits - 1)), (1 << (bits - 1)) - 1) if signed else (0, (1 << bits) - 1)
+
+    def m_int__checked_add(self, c, a, b):
+        if isinstance(a, int) and isinstance(b, int):
+            lo, hi = self._int_range(c)
+            return Some(a + b) if lo <= a + b <= hi else NONE()
+        raise Unsupported('symbolic checked_add')
+
+    def m_int__saturating_add(self, c, a, b):
+        if isinstance(a, int) and isinstance(b, int):
+            lo, hi = self._int_range(c)
+            return max(lo, min(hi, a + b))
+        raise Unsupported('symbolic saturating_add')
+
+    def m_int__saturating_sub(self, c, a, b):
+        if isinstance(a, int) and isinstance(b, int):
+            lo, hi = self._int_range(c)
+            return max(lo, min(hi, a - b))
+        raise Unsupported('symbolic saturating_sub')
+
+    def m_int__wrapping_add(self, c, a, b):
+        if isinstance(a, int) and isinstance(b, int):
+            signed, bits = INT_TYS[self._int_ty(c)]
+            r = (a + b) & ((1 << bits) - 1)
+            return r - (1 << bits) if signed and r >= 1 << (bits - 1) else r
+        raise Unsupported('symbolic wrapping_add')
+
+    def m_int__abs(self, c, a):
+        if isinstance(a, int):
+            return abs(a)
+        raise Unsupported('symbolic abs')
+
+    def m_int__abs_diff(self, c, a, b):
+        if isinstance(a, int) and isinstance(b, int):
+            return abs(a - b)
+        raise Unsupported('symbolic abs_diff')
+
+    def m_int__max(self, c, a, b):
+        a, b = deref(a), deref(b)
+        return b if self.ctx.branch(val_lt(a, b)) or not self.ctx.branch(val_lt(b, a)) else a
+
+    def m_int__min(self, c, a, b):
+        a, b = deref(a), deref(b)
+        return b if self.ctx.branch(val_lt(b, a)) else a
+
     def m_bool__then_some(self, c, b, v):
         return Some(v) if self.ctx.branch(b) else NONE()
 
@@ -1859,6 +1913,604 @@ class Models:
         return Enum('LevelFilter', 0, 'Off', [])
 
     m_log__max_level = m_max_level
+
+
+    # ------------------------------------------------------------------ further std combinators (robustness against routine refactorings)
+    def m_Option__or_else(self, c, o, f):
+        return o if o.discr == 1 else self.call_closure(f)
+
+    def m_Option__xor(self, c, a, b):
+        if a.discr == 1 and b.discr == 0:
+            return a
+        if a.discr == 0 and b.discr == 1:
+            return b
+        return NONE()
+
+    def m_Option__and(self, c, a, b):
+        return b if a.discr == 1 else NONE()
+
+    def m_Option__replace(self, c, o, v):
+        r = deref(o)
+        old = Enum('Option', r.discr, r.vname, list(r.f))
+        r.discr, r.vname, r.f = 1, 'Some', [v]
+        return old
+
+    def m_Option__insert(self, c, o, v):
+        r = deref(o)
+        r.discr, r.vname, r.f = 1, 'Some', [v]
+        return Ref(r.f, 0)
+
+    def m_Option__flatten(self, c, o):
+        return o.f[0] if o.discr == 1 else NONE()
+
+    def m_Option__inspect(self, c, o, f):
+        if o.discr == 1:
+            self.call_closure(f, Ref(o.f, 0))
+        return o
+
+    def m_Option__as_mut(self, c, o):
+        r = deref(o)
+        return Some(Ref(r.f, 0)) if r.discr == 1 else NONE()
+
+    def m_bool__then(self, c, b, f):
+        return Some(self.call_closure(f)) if self.ctx.branch(deref(b)) else NONE()
+
+    def m_bool__then_some(self, c, b, v):
+        return Some(v) if self.ctx.branch(deref(b)) else NONE()
+
+    def m_Result__unwrap_or_else(self, c, r, f):
+        return r.f[0] if r.discr == 0 else self.call_closure(f, r.f[0])
+
+    def m_Result__map_or(self, c, r, d, f):
+        return self.call_closure(f, r.f[0]) if r.discr == 0 else d
+
+    def m_Result__map_or_else(self, c, r, d, f):
+        return self.call_closure(f, r.f[0]) if r.discr == 0 else self.call_closure(d, r.f[0])
+
+    def m_Result__or_else(self, c, r, f):
+        return r if r.discr == 0 else self.call_closure(f, r.f[0])
+
+    def m_Result__err(self, c, r):
+        return Some(r.f[0]) if r.discr == 1 else NONE()
+
+    def m_Result__is_ok_and(self, c, r, f):
+        return r.discr == 0 and self.ctx.branch(self.call_closure(f, r.f[0]))
+
+    def m_Result__is_err_and(self, c, r, f):
+        return r.discr == 1 and self.ctx.branch(self.call_closure(f, r.f[0]))
+
+    def m_Result__unwrap_err(self, c, r):
+        if r.discr == 0:
+            raise RustPanic('unwrap_err on Ok')
+        return r.f[0]
+
+    m_Result__expect_err = lambda self, c, r, msg: self.m_Result__unwrap_err(c, r)
+
+    def m_Result__and(self, c, a, b):
+        return b if a.discr == 0 else a
+
+    def m_Result__or(self, c, a, b):
+        return a if a.discr == 0 else b
+
+    def m_Result__cloned(self, c, r):
+        return Ok(deep_clone(deref(r.f[0]))) if r.discr == 0 else r
+
+    m_Result__copied = m_Result__cloned
+
+    def m_Iterator__skip_while(self, c, it, f):
+        it = self._into_iter_value(it)
+        state = {'skipping': True}
+
+        def nxt():
+            while True:
+                x = it.nxt()
+                if x is DONE:
+                    return DONE
+                if state['skipping'] and self.ctx.branch(self.call_closure(f, ref_to(x))):
+                    continue
+                state['skipping'] = False
+                return x
+        return RIter(nxt, kind='skip_while')
+
+    def m_Iterator__step_by(self, c, it, n):
+        xs = drain(self._into_iter_value(it))
+        if not isinstance(n, int) or n == 0:
+            raise Unsupported('step_by with symbolic or zero step')
+        return list_iter(xs[::n])
+
+    def m_Iterator__inspect(self, c, it, f):
+        it = self._into_iter_value(it)
+
+        def nxt():
+            x = it.nxt()
+            if x is not DONE:
+                self.call_closure(f, ref_to(x))
+            return x
+        return RIter(nxt, kind='inspect')
+
+    def m_Iterator__fuse(self, c, it):
+        return self._into_iter_value(it)
+
+    def m_Iterator__scan(self, c, it, init, f):
+        it = self._into_iter_value(it)
+        st = [init]
+        done = [False]
+
+        def nxt():
+            if done[0]:
+                return DONE
+            x = it.nxt()
+            if x is DONE:
+                return DONE
+            r = self.call_closure(f, Ref(st, 0), x)
+            if r.discr == 0:
+                done[0] = True
+                return DONE
+            return r.f[0]
+        return RIter(nxt, kind='scan')
+
+    def m_Iterator__reduce(self, c, it, f):
+        xs = drain(self._into_iter_value(it))
+        if not xs:
+            return NONE()
+        acc = xs[0]
+        for x in xs[1:]:
+            acc = self.call_closure(f, acc, x)
+        return Some(acc)
+
+    def m_Iterator__product(self, c, it):
+        it = self._into_iter_value(it)
+        k = c.rindex('::product::<')
+        ty = norm_ty(c[k + 12:-1])
+        if ty == 'f64':
+            acc = ONE
+            for x in drain(it):
+                acc = f_mul(acc, deref(x))
+            return acc
+        if ty in INT_TYS:
+            acc = 1
+            for x in drain(it):
+                acc = self.it.binop('Mul', acc, deref(x), ty)
+            return acc
+        raise Unsupported('product of ' + ty)
+
+    def m_Iterator__try_fold(self, c, it, init, f):
+        it = self._into_iter_value(deref(it) if isinstance(deref(it), RIter) else it)
+        acc = init
+        while True:
+            x = it.nxt()
+            if x is DONE:
+                # Try::from_output: the closure's own return type decides Option / Result; infer it from the last value
+                k = c.rindex('::try_fold::<')
+                ga = split_top(c[k + 13:-1])
+                rty = ga[-1] if ga else ''
+                return Some(acc) if ty_head(norm_ty(rty)) == 'Option' else Ok(acc)
+            r = self.call_closure(f, acc, x)
+            if (r.ty == 'Option' and r.discr == 0) or (r.ty == 'Result' and r.discr == 1):
+                return r
+            acc = r.f[0]
+
+    def m_Iterator__try_for_each(self, c, it, f):
+        it = self._into_iter_value(deref(it) if isinstance(deref(it), RIter) else it)
+        last = None
+        while True:
+            x = it.nxt()
+            if x is DONE:
+                k = c.rindex('::try_for_each::<')
+                ga = split_top(c[k + 17:-1])
+                rty = ga[-1] if ga else ''
+                return Some(UNIT) if ty_head(norm_ty(rty)) == 'Option' else Ok(UNIT)
+            r = self.call_closure(f, x)
+            if (r.ty == 'Option' and r.discr == 0) or (r.ty == 'Result' and r.discr == 1):
+                return r
+
+    def _by_key(self, it, f, want_max):
+        xs = drain(self._into_iter_value(it))
+        if not xs:
+            return NONE()
+        best, bk = xs[0], self.call_closure(f, ref_to(xs[0]))
+        for x in xs[1:]:
+            k = self.call_closure(f, ref_to(x))
+            if want_max:
+                take = not self.ctx.branch(val_lt(k, bk))          # max_by_key keeps the last maximum
+            else:
+                take = self.ctx.branch(val_lt(k, bk))              # min_by_key keeps the first minimum
+            if take:
+                best, bk = x, k
+        return Some(best)
+
+    def m_Iterator__max_by_key(self, c, it, f):
+        return self._by_key(it, f, True)
+
+    def m_Iterator__min_by_key(self, c, it, f):
+        return self._by_key(it, f, False)
+
+    def m_Iterator__unzip(self, c, it):
+        xs = drain(self._into_iter_value(it))
+        k = c.rindex('::unzip::<')
+        ga = [norm_ty(t) for t in split_top(c[k + 10:-1])]
+        outs = []
+        for j, t in enumerate(ga[-2:]):
+            vals = [deref(x).f[j] for x in xs]
+            h = ty_head(t)
+            if h == 'Vec':
+                outs.append(RVec(vals))
+            elif h in ('HashSet', 'BTreeSet'):
+                m = RMap('hash' if h == 'HashSet' else 'btree', True)
+                for v in vals:
+                    self.map_insert(m, v, UNIT)
+                outs.append(m)
+            else:
+                raise Unsupported('unzip into ' + t)
+        return Agg(outs)
+
+    def m_Iterator__partition(self, c, it, f):
+        xs = drain(self._into_iter_value(it))
+        a, b = [], []
+        for x in xs:
+            (a if self.ctx.branch(self.call_closure(f, ref_to(x))) else b).append(x)
+        return Agg([RVec(a), RVec(b)])
+
+    def m_Iterator__eq(self, c, a, b):
+        xs, ys = drain(self._into_iter_value(a)), drain(self._into_iter_value(b))
+        if len(xs) != len(ys):
+            return False
+        return b_and(*[val_eq(x, y) for x, y in zip(xs, ys)])
+
+    def m_Iterator__rposition(self, c, it, f):
+        xs = drain(self._into_iter_value(deref(it) if isinstance(deref(it), RIter) else it))
+        for i in range(len(xs) - 1, -1, -1):
+            if self.ctx.branch(self.call_closure(f, xs[i])):
+                return Some(i)
+        return NONE()
+
+    def m_Iterator__is_sorted(self, c, it):
+        xs = drain(self._into_iter_value(it))
+        return b_and(*[b_not(val_lt(y, x)) for x, y in zip(xs, xs[1:])])
+
+    def m_DoubleEndedIterator__next_back(self, c, it):
+        r = deref(it)
+        if r.back is not None:
+            return opt(r.back())
+        xs = drain(r)
+        if not xs:
+            r.nxt = lambda: DONE
+            return NONE()
+        last = xs.pop()
+        rest = iter(xs)
+        r.nxt = lambda: next(rest, DONE)
+        return Some(last)
+
+    def m_DoubleEndedIterator__rfind(self, c, it, f):
+        xs = drain(self._into_iter_value(deref(it) if isinstance(deref(it), RIter) else it))
+        for x in reversed(xs):
+            if self.ctx.branch(self.call_closure(f, ref_to(x))):
+                return Some(x)
+        return NONE()
+
+    def m_ExactSizeIterator__len(self, c, it):
+        r = deref(it)
+        xs = drain(r)
+        rest = iter(xs)
+        r.nxt = lambda: next(rest, DONE)
+        return len(xs)
+
+    def m_Vec__resize(self, c, v, n, x):
+        vec = deref(v)
+        if not isinstance(n, int):
+            raise Unsupported('resize to a symbolic length')
+        if n <= len(vec.items):
+            del vec.items[n:]
+        else:
+            vec.items.extend(deep_clone(x) for _ in range(n - len(vec.items)))
+        return UNIT
+
+    def m_Vec__split_off(self, c, v, at):
+        vec = deref(v)
+        if not isinstance(at, int):
+            raise Unsupported('split_off at a symbolic index')
+        if at > len(vec.items):
+            raise RustPanic('split_off out of bounds')
+        tail = vec.items[at:]
+        del vec.items[at:]
+        return RVec(tail)
+
+    def m_slice__sort_by_key(self, c, v, f):
+        s = items_of(v)
+        keyed = [(self.call_closure(f, ref_to(x)), x) for x in s.items]
+        res = self.fork_sort(keyed, lambda a, b: val_lt(a[0], b[0]))
+        out = [x for _, x in res]
+        if isinstance(s, SliceView):
+            s.vec.items[s.lo:s.hi] = out
+        else:
+            s.items[:] = out
+        return UNIT
+
+    m_slice__sort_unstable_by_key = m_slice__sort_by_key
+    m_slice__sort_by_cached_key = m_slice__sort_by_key
+
+    def m_slice__first_mut(self, c, v):
+        s = items_of(v)
+        if not s.items:
+            return NONE()
+        return Some(Ref(s.vec.items, s.lo) if isinstance(s, SliceView) else Ref(s.items, 0))
+
+    def m_slice__last_mut(self, c, v):
+        s = items_of(v)
+        if not s.items:
+            return NONE()
+        return Some(Ref(s.vec.items, s.hi - 1) if isinstance(s, SliceView) else Ref(s.items, len(s.items) - 1))
+
+    def m_slice__get_mut(self, c, v, i):
+        return self.m_slice__get(c, v, i)
+
+    def m_slice__split_first(self, c, v):
+        s = items_of(v)
+        if not s.items:
+            return NONE()
+        base, lo, hi = (s.vec, s.lo, s.hi) if isinstance(s, SliceView) else (s, 0, len(s.items))
+        return Some(Agg([Ref(base.items, lo), SliceView(base, lo + 1, hi)]))
+
+    def m_slice__split_last(self, c, v):
+        s = items_of(v)
+        if not s.items:
+            return NONE()
+        base, lo, hi = (s.vec, s.lo, s.hi) if isinstance(s, SliceView) else (s, 0, len(s.items))
+        return Some(Agg([Ref(base.items, hi - 1), SliceView(base, lo, hi - 1)]))
+
+    def m_slice__windows(self, c, v, n):
+        s = items_of(v)
+        base, lo, hi = (s.vec, s.lo, s.hi) if isinstance(s, SliceView) else (s, 0, len(s.items))
+        if not isinstance(n, int) or n == 0:
+            raise Unsupported('windows with symbolic or zero size')
+        return list_iter([SliceView(base, i, i + n) for i in range(lo, hi - n + 1)])
+
+    def m_slice__chunks_exact(self, c, v, n):
+        s = items_of(v)
+        base, lo, hi = (s.vec, s.lo, s.hi) if isinstance(s, SliceView) else (s, 0, len(s.items))
+        if not isinstance(n, int) or n == 0:
+            raise Unsupported('chunks_exact with symbolic or zero size')
+        return list_iter([SliceView(base, i, i + n) for i in range(lo, hi - n + 1, n)])
+
+    def m_slice__ends_with(self, c, v, p):
+        a, b = items_of(v).items, items_of(p).items
+        if len(b) > len(a):
+            return False
+        return b_and(*[val_eq(x, y) for x, y in zip(a[len(a) - len(b):], b)])
+
+    def m_slice__is_sorted(self, c, v):
+        xs = items_of(v).items
+        return b_and(*[b_not(val_lt(y, x)) for x, y in zip(xs, xs[1:])])
+
+    def m_slice__fill(self, c, v, x):
+        s = items_of(v)
+        base, lo, hi = (s.vec, s.lo, s.hi) if isinstance(s, SliceView) else (s, 0, len(s.items))
+        for i in range(lo, hi):
+            base.items[i] = deep_clone(x)
+        return UNIT
+
+    def m_Vec__reserve(self, c, v, n):
+        return UNIT
+
+    m_Vec__shrink_to_fit = lambda self, c, v: UNIT
+    m_Vec__reserve_exact = m_Vec__reserve
+
+    def m_Vec__capacity(self, c, v):
+        return len(deref(v).items)
+
+    def m_Vec__dedup_by_key(self, c, v, f):
+        vec = deref(v)
+        out = []
+        for i in range(len(vec.items)):
+            if out and self.ctx.branch(val_eq(self.call_closure(f, Ref(vec.items, i)), self.call_closure(f, ref_to(out[-1])))):
+                continue
+            out.append(vec.items[i])
+        vec.items[:] = out
+        return UNIT
+
+    m_Vec__retain_mut = lambda self, c, v, f: self.m_Vec__retain(c, v, f)
+
+    def m_HashMap__retain(self, c, m, f):
+        mm = deref(m)
+        keep = []
+        for e in list(self.map_iter_order(mm)):
+            if self.ctx.branch(self.call_closure(f, ref_to(e[0]), Ref(e, 1))):
+                keep.append(e)
+        mm.entries[:] = [e for e in mm.entries if any(e is k for k in keep)]
+        return UNIT
+
+    m_BTreeMap__retain = m_HashMap__retain
+
+    def m_HashSet__retain(self, c, m, f):
+        mm = deref(m)
+        mm.entries[:] = [e for e in list(mm.entries) if self.ctx.branch(self.call_closure(f, ref_to(e[0])))]
+        return UNIT
+
+    m_BTreeSet__retain = m_HashSet__retain
+
+    def m_HashMap__remove_entry(self, c, m, k):
+        mm = deref(m)
+        i = self.map_find(mm, k)
+        if i < 0:
+            return NONE()
+        e = mm.entries.pop(i)
+        return Some(Agg([e[0], e[1]]))
+
+    m_BTreeMap__remove_entry = m_HashMap__remove_entry
+
+    def m_HashMap__get_key_value(self, c, m, k):
+        mm = deref(m)
+        i = self.map_find(mm, k)
+        if i < 0:
+            return NONE()
+        return Some(Agg([Ref(mm.entries[i], 0), Ref(mm.entries[i], 1)]))
+
+    m_BTreeMap__get_key_value = m_HashMap__get_key_value
+
+    def m_BTreeMap__first_key_value(self, c, m):
+        mm = deref(m)
+        if not mm.entries:
+            return NONE()
+        return Some(Agg([Ref(mm.entries[0], 0), Ref(mm.entries[0], 1)]))
+
+    def m_BTreeMap__last_key_value(self, c, m):
+        mm = deref(m)
+        if not mm.entries:
+            return NONE()
+        return Some(Agg([Ref(mm.entries[-1], 0), Ref(mm.entries[-1], 1)]))
+
+    def m_BTreeMap__pop_first(self, c, m):
+        mm = deref(m)
+        if not mm.entries:
+            return NONE()
+        e = mm.entries.pop(0)
+        return Some(Agg([e[0], e[1]]))
+
+    def m_BTreeMap__pop_last(self, c, m):
+        mm = deref(m)
+        if not mm.entries:
+            return NONE()
+        e = mm.entries.pop()
+        return Some(Agg([e[0], e[1]]))
+
+    def m_BTreeSet__pop_first(self, c, m):
+        mm = deref(m)
+        return Some(mm.entries.pop(0)[0]) if mm.entries else NONE()
+
+    def m_BTreeSet__pop_last(self, c, m):
+        mm = deref(m)
+        return Some(mm.entries.pop()[0]) if mm.entries else NONE()
+
+    def m_f64__round(self, c, x):
+        x = deref(x)
+        if x.tag != 'fin':
+            return x
+        if isinstance(x.r, Fraction):
+            import math
+            a = abs(x.r)
+            n = math.floor(a + Fraction(1, 2))       # half away from zero
+            return fin(Fraction(-n if x.r < 0 else n))
+        t = z3real(x.r)
+        up = z3.ToReal(z3.ToInt(t + z3.Q(1, 2)))
+        dn = -z3.ToReal(z3.ToInt(-t + z3.Q(1, 2)))
+        return FV('fin', z3.If(t >= 0, up, dn))
+
+    def m_f64__trunc(self, c, x):
+        x = deref(x)
+        if x.tag != 'fin':
+            return x
+        return self.ctx.branch(f_cmp('ge', x, ZERO)) and f_floor(x) or f_ceil(x)
+
+    def m_f64__signum(self, c, x):
+        x = deref(x)
+        if x.tag == 'nan':
+            return x
+        if x.tag == 'pinf':
+            return ONE
+        if x.tag == 'ninf':
+            return fin(-1)
+        # +0.0 -> 1.0, -0.0 -> -1.0: the R-model has no signed zero, zero counts as positive
+        return ONE if self.ctx.branch(f_cmp('ge', x, ZERO)) else fin(-1)
+
+    def m_f64__recip(self, c, x):
+        return f_div(ONE, deref(x))
+
+    def m_f64__mul_add(self, c, x, a, b):
+        return f_add(f_mul(deref(x), deref(a)), deref(b))
+
+    def m_f64__clamp(self, c, x, lo, hi):
+        x, lo, hi = deref(x), deref(lo), deref(hi)
+        if self.ctx.branch(f_cmp('lt', x, lo)):
+            return lo
+        if self.ctx.branch(f_cmp('gt', x, hi)):
+            return hi
+        return x
+
+    def m_f64__is_sign_negative(self, c, x):
+        x = deref(x)
+        if x.tag in ('ninf',):
+            return True
+        if x.tag in ('pinf', 'nan'):
+            return False
+        return self.ctx.branch(f_cmp('lt', x, ZERO))       # -0.0 is not represented in the R-model
+
+    def m_f64__is_sign_positive(self, c, x):
+        return not self.m_f64__is_sign_negative(c, x)
+
+    def m_f64__copysign(self, c, x, s):
+        neg = self.m_f64__is_sign_negative(c, s)
+        a = f_abs(deref(x))
+        return f_neg(a) if neg else a
+
+    def m_String__push(self, c, s, ch):
+        deref(s).s += chr(ch) if isinstance(ch, int) else ch
+        return UNIT
+
+    def m_String__with_capacity(self, c, n):
+        return RString('')
+
+    def m_String__as_bytes(self, c, s):
+        return Opaque('bytes', deref(s).s.encode())
+
+    def m_str__find(self, c, s, pat):
+        s = deref(s)
+        s = s.s if isinstance(s, RString) else s
+        pat = deref(pat)
+        pat = pat.s if isinstance(pat, RString) else (chr(pat) if isinstance(pat, int) else pat)
+        if not isinstance(pat, str):
+            raise Unsupported('str::find with a closure pattern')
+        i = s.find(pat)
+        return NONE() if i < 0 else Some(len(s[:i].encode()))
+
+    def m_str__replace(self, c, s, a, b):
+        s, a, b = [x.s if isinstance(x, RString) else (chr(x) if isinstance(x, int) else x) for x in (deref(s), deref(a), deref(b))]
+        return RString(s.replace(a, b))
+
+    def m_str__split_once(self, c, s, pat):
+        s = deref(s)
+        s = s.s if isinstance(s, RString) else s
+        pat = deref(pat)
+        pat = pat.s if isinstance(pat, RString) else (chr(pat) if isinstance(pat, int) else pat)
+        if not isinstance(pat, str) or pat not in s:
+            if isinstance(pat, str):
+                return NONE()
+            raise Unsupported('split_once with a closure pattern')
+        a, b = s.split(pat, 1)
+        return Some(Agg([a, b]))
+
+    def m_str__rsplit(self, c, s, pat):
+        s = deref(s)
+        s = s.s if isinstance(s, RString) else s
+        pat = pat if isinstance(pat, str) else chr(pat)
+        return list_iter(list(reversed(s.split(pat))))
+
+    def m_str__repeat(self, c, s, n):
+        s = deref(s)
+        return RString((s.s if isinstance(s, RString) else s) * n)
+
+    def m_str__to_ascii_uppercase(self, c, s):
+        s = deref(s)
+        s = s.s if isinstance(s, RString) else s
+        return RString(''.join(ch.upper() if ord(ch) < 128 else ch for ch in s))
+
+    def m_str__to_ascii_lowercase(self, c, s):
+        s = deref(s)
+        s = s.s if isinstance(s, RString) else s
+        return RString(''.join(ch.lower() if ord(ch) < 128 else ch for ch in s))
+
+    def m_str__eq_ignore_ascii_case(self, c, a, b):
+        a, b = [x.s if isinstance(x, RString) else x for x in (deref(a), deref(b))]
+        low = lambda t: ''.join(ch.lower() if ord(ch) < 128 else ch for ch in t)
+        return low(a) == low(b)
+
+    def m_str__trim_matches(self, c, s, pat):
+        s = deref(s)
+        s = s.s if isinstance(s, RString) else s
+        if isinstance(pat, int):
+            return s.strip(chr(pat))
+        if isinstance(pat, str) and len(pat) == 1:
+            return s.strip(pat)
+        raise Unsupported('trim_matches with a non-char pattern')
 
     # ------------------------------------------------------------------ chrono (external): instants are opaque tokens
     def m_DateTime__to_rfc3339(self, c, dt):
